@@ -82,6 +82,20 @@ def run_c06(pid, tier, seed):
     cfg = f"INIT Init\nNEXT Next\nCONSTANT MaxLen = {4 if q else 5}\nCONSTANT EmitRows = TRUE\nINVARIANT C06\nINVARIANT EmitRow\nCHECK_DEADLOCK FALSE\n"
     st, rep = replay_mc(wd, "MC_C06", cfg, "c06-replay", "mc_c06", workers=12)
     violations = list(rep["violations"])
+    # the same two implications over expression trees: `10 PRINT e`, `10 X = e`, `10 A$ = e`
+    import concurrent.futures as cf
+    groups = [["un", "bin"], ["left"]] if q else [["un", "bin", "unbin"], ["left"], ["right"]]
+
+    def expr_group(i):
+        gcfg = ("INIT Init\nNEXT Next\nCONSTANT Shapes = {" + ", ".join(f'"{x}"' for x in groups[i]) + "}\nCONSTANT EmitRows = TRUE\n"
+                "INVARIANT C06\nINVARIANT EmitRow\nCHECK_DEADLOCK FALSE\n")
+        return replay_mc(wd, "MC_C06b", gcfg, "c06-replay", f"mc_c06b_{i}", workers=3)
+
+    expr_rows = 0
+    with cf.ThreadPoolExecutor(max_workers=3) as ex:
+        for stb, repb in ex.map(expr_group, range(len(groups))):
+            violations += repb["violations"]
+            expr_rows += repb["counters"].get("rows", 0)
     # the analyzer side of every enumerated file of MC_Analyzer must match the model too (error kinds decide C06)
     cfg2 = f"INIT Init\nNEXT Next\nCONSTANT MaxLines = {2 if q else 3}\nCONSTANT EmitRows = TRUE\nINVARIANT C05\nINVARIANT EmitRow\nCHECK_DEADLOCK FALSE\n"
     st2, rep2 = replay_mc(wd, "MC_Analyzer", cfg2, "ana-replay", "mc_analyzer")
@@ -102,15 +116,15 @@ def run_c06(pid, tier, seed):
         if v["property"] == "SESSION" and set(v["features"]["fields"]) & {"res.ok", "res.kind"}:
             violations.append({**v, "property": "C06", "class": "run_differs_from_model"})
     cov = {"states": st["distinct"] + st2["distinct"] + stk["distinct"],
-           "transitions": rep["counters"].get("rows", 0) + rep2["counters"].get("rows", 0) + repk["counters"].get("rows", 0),
+           "transitions": rep["counters"].get("rows", 0) + expr_rows + rep2["counters"].get("rows", 0) + repk["counters"].get("rows", 0),
            "traces_validated_against_impl": rep["counters"].get("rows", 0) + rep2["counters"].get("rows", 0) + repk["counters"].get("rows", 0) + frep["counters"].get("runs", 0),
-           "one_line_programs_replayed": rep["counters"].get("rows", 0), "files_replayed": rep2["counters"].get("rows", 0),
+           "one_line_programs_replayed": rep["counters"].get("rows", 0), "expression_programs_replayed": expr_rows, "files_replayed": rep2["counters"].get("rows", 0),
            "kernel_transitions_replayed": repk["counters"].get("rows", 0),
            "generated_programs": frep["counters"].get("programs", 0), "generated_programs_accepted_by_checker": frep["counters"].get("programs_accepted_by_checker", 0),
            "runs_of_accepted_programs": frep["counters"].get("runs", 0),
            "evaluations": rep["counters"].get("rows", 0) + frep["counters"].get("runs", 0),
            "distinct_nontrivial": rep["counters"].get("rows_nontrivial", 0),
            "rule": f"every writable one-line program of <= {4 if q else 5} tokens over the 17-token alphabet of MC_C06.tla; non-trivial = the checker or the run reports an error",
-           "model_invariants_checked": ["C06 (converse and forward on one-line programs)", "C06Forward (kernels the checker accepts, all executions)"],
+           "model_invariants_checked": ["C06 (converse and forward on one-line programs over tokens and over expression trees)", "C06Forward (kernels the checker accepts, all executions)"],
            "samples": rep["samples"][:4] + frep["samples"][:2], "exhaustive": True}
     c.finish(pid, tier, seed, t0, cov, violations, ASSUMPTIONS)
